@@ -278,6 +278,11 @@ func (s *asmState) loadLane(in asmInstr, region string, off int64) *T {
 	if region == "stack" || region == "ret" {
 		return BV(32, 0xdeadbeef) // uninitialised
 	}
+	if strings.HasPrefix(region, "arg") {
+		// a load outside the argument slice: arbitrary contents; the access is already recorded and becomes an
+		// asm-oob finding
+		return Var(fmt.Sprintf("oob!%s!%d", region, off), 32)
+	}
 	s.fail(in, "load from unmapped %s+%d", region, off)
 	return nil
 }
